@@ -246,12 +246,16 @@ def remap_refs(c, f):
     return c
 
 
-def build_object(spec):
+def build_object(spec, built=()):
+    """built: the objects constructed so far; spec["names"] = {name: ref} makes earlier objects (caller-owned arrays)
+    available to the constructor expression"""
     import epgpy as epg
     from epgpy import sequence as seqm
     t = spec["t"]
     if t == "nop":
         return None
+    if t == "array":
+        return eval(spec["expr"], {"np": np})
     if t == "sm":
         env = {"epg": epg, "np": np}
         if "expr" in spec:
@@ -264,7 +268,9 @@ def build_object(spec):
     if t == "dop":
         return dprog.build(spec["o"])
     if t == "op" or t == "probe":
-        return eval(spec["expr"], {"epg": epg, "np": np})
+        env = {"epg": epg, "np": np}
+        env.update({n: built[r] for n, r in (spec.get("names") or {}).items()})
+        return eval(spec["expr"], env)
     if t == "vseq":
         ns = {k: getattr(seqm, k) for k in seqm.__all__}
         ns.update({"np": np, "seqm": seqm})
@@ -350,7 +356,7 @@ def run_shared(hist, observe=True):
     env, res, events, obs = [], [], [], []
     for spec in hist["objects"]:
         try:
-            o = build_object(spec)
+            o = build_object(spec, env)
         except Exception as e:
             o = Raised(e)
             events.append({"kind": "raises", "step": len(env), "what": "constructing %s raised %s: %s" % (spec, o.kind, o.msg)})
@@ -453,7 +459,7 @@ def run_pure(hist):
     store, res, args_at, mode_events = [], [], [], []
     for spec in hist["objects"]:
         try:
-            o = build_object(spec)
+            o = build_object(spec, store)
         except Exception as e:
             o = Raised(e)
         store.append(o)          # freshly built, never handed out: pristine
@@ -614,6 +620,8 @@ def closure(hist, step):
         seen.add(k)
         if k >= n0:
             todo += call_refs(hist["calls"][k - n0])
+        else:
+            todo += list((hist["objects"][k].get("names") or {}).values())      # caller-owned arrays an object was built from
         for ci, c in enumerate(hist["calls"][:max(0, step - n0)]):
             if inplace_target(c) == k:
                 todo.append(n0 + ci)
@@ -908,6 +916,9 @@ def shrink(hist, sig, budget=60):
             h = cand
     # unused objects
     used = set(r for c in h["calls"] for r in call_refs(c))
+    for i in sorted(used):
+        if i < len(h["objects"]):
+            used |= set((h["objects"][i].get("names") or {}).values())
     h["objects"] = [o if i in used else {"t": "nop"} for i, o in enumerate(h["objects"])]
     # compact
     keep, new = {}, 0
@@ -919,6 +930,7 @@ def shrink(hist, sig, budget=60):
         if c["do"] != "nop":
             keep[n0 + ci] = new; new += 1; calls.append(c)
     calls = [remap_refs(c, lambda r: keep[r]) for c in calls]
+    objs = [dict(o, names={n: keep[r] for n, r in o["names"].items()}) if o.get("names") else o for o in objs]
     out = {"kind": hist.get("kind"), "objects": objs, "calls": calls}
     return out if bad(out) else h
 
@@ -1092,7 +1104,7 @@ def gen_synth(rng):
     return {"kind": "synth", "objects": objs, "calls": calls}
 
 
-REAL_FAMILIES = ["basic", "basic", "batched", "imaging", "imaging", "vseq", "nd"]
+REAL_FAMILIES = ["basic", "basic", "batched", "imaging", "imaging", "vseq", "nd", "kvalue"]
 
 
 def gen_real(rng):
@@ -1106,7 +1118,7 @@ def gen_real(rng):
 
     def o1(names):
         r = rng.random()
-        if r < 0.35:
+        if r < 0.35 or fam == "kvalue":
             return ""
         if r < 0.5:
             # several variables differentiate the SAME parameter: aliases, unit and non-unit coefficients
@@ -1131,7 +1143,18 @@ def gen_real(rng):
         return ", order1=%r, order2=%r" % (sub, sub[0])
     arr = (lambda vals: "np.array(%r)" % [float(rng.choice(vals)) for _ in range(3)]) if fam == "batched" else (lambda vals: repr(float(rng.choice(vals))))
     # state matrices
-    if fam == "imaging":
+    kv = {"kvalue": rng.choice([0.5, 2.0, 0.25]), "kgrid": rng.choice([0.01, 0.05])}
+    if fam == "kvalue":
+        # float (shift-merge) gradients on a state whose kvalue / tvalue is not 1; some S are built from CALLER-OWNED arrays
+        if rng.random() < 0.3:
+            kv["tvalue"] = 0.5
+        kvs = ", ".join("%s=%r" % it for it in kv.items())
+        add({"t": "sm", "expr": "epg.StateMatrix(%s%s)" % (rng.choice(["", "[1, 1, 0], "]), kvs)}, kind="sm", attr=False)
+        if rng.random() < 0.4:
+            add({"t": "sm", "expr": "epg.StateMatrix(%s)" % kvs}, kind="sm", attr=False)
+        arrays = [add({"t": "array", "expr": "np.array([%r])" % [rng.choice([1.2, 0.6, -0.9]), rng.choice([0.0, 0.3]), rng.choice([-0.3, 0.0, 0.6])]}, kind="array")
+                  for _ in range(rng.randint(1, 2))]
+    elif fam == "imaging":
         add({"t": "sm", "expr": "epg.StateMatrix(kgrid=%s)" % rng.choice([0.5, 1.0]),
              "prep": ["epg.System(weights=np.array([%s]), modulation=np.array([%s]))" % (rng.choice([0.5, 2.0]), rng.choice(["-0.02", "-0.01+0.05j"]))]
              if rng.random() < 0.6 else []}, kind="sm", attr=False)
@@ -1140,7 +1163,7 @@ def gen_real(rng):
     else:
         add({"t": "sm", "expr": "epg.StateMatrix(%s)" % rng.choice(["", "", "max_nstate=2", "density=2.0", "[[0.5, 0.5, 0.5]]"]),
              "prep": (["epg.System(weights=np.array([2.0]))"] if rng.random() < 0.25 else [])}, kind="sm", attr=False)
-    if rng.random() < 0.4:
+    if rng.random() < 0.4 and fam != "kvalue":
         add({"t": "sm", "expr": "epg.StateMatrix(%s)" % ("kgrid=1.0" if fam == "imaging" else "")}, kind="sm", attr=False)
     # operators
     nops = rng.randint(3, 6)
@@ -1159,6 +1182,12 @@ def gen_real(rng):
             e = "epg.R(%s, %s%s)" % (arr([0.01, 0.05]), rng.choice([0.001, 0.002]), o1(["rT", "rL"]).replace("order1=True, order2=True", "order1=['rT']").replace("order1=True", "order1=['rT', 'rL']"))
         elif k == "Phi":
             e = "epg.Phi(%s%s)" % (arr([10, 45, 120]), o1(["phi"]))
+        elif k == "S" and fam == "kvalue":
+            if rng.random() < 0.6:
+                a = rng.choice(arrays)
+                add({"t": "op", "expr": "epg.S(A)", "names": {"A": a}}, kind="op", diff=True)
+                continue
+            e = "epg.S(%r)" % [[rng.choice([1.2, -0.6, 0.9]), rng.choice([0.0, 0.3]), rng.choice([0.3, 0.0])]]
         elif k == "S":
             if fam == "imaging":
                 e = "epg.S(%s)" % rng.choice(["0.5", "1.0", "-1.5", "np.array([1.0, 0.0, 0.5])"])
@@ -1264,7 +1293,10 @@ def gen_real(rng):
             q = rng.choice(qs)
             init = rng.choice(refs_of("sm")) if rng.random() < 0.6 else None
             opts = {}
-            if fam == "imaging":
+            if fam == "kvalue":
+                if init is None:
+                    opts.update(kv)
+            elif fam == "imaging":
                 if init is None or rng.random() < 0.3:
                     opts["kgrid"] = rng.choice([0.5, 1.0])
             elif rng.random() < 0.3:
@@ -1369,6 +1401,19 @@ WITNESSES = [
         {"t": "probe", "expr": "epg.Probe(lambda sm: (sm.F0, sm.Z0, sm.F))"}],
         "calls": [{"do": "mkseq", "refs": [0, 1, 2, 3, 0, 1, 2, 3, 0, 1, 2, 3, 0, 1, 3]},
                   {"do": "simulate", "seq": 4, "init": None, "opts": {"asarray": False, "max_nstate": 1}, "probe": None}]}),
+    # a float gradient built from a caller-owned array, reused on a state whose kvalue is not 1: the operator, the caller's
+    # array and a second application must be unaffected by the first application
+    ("float S built from a caller's array is reusable on a state with kvalue != 1", {"kind": "witness", "objects": [
+        {"t": "array", "expr": "np.array([[1.2, 0.0, -0.3]])"}, {"t": "op", "expr": "epg.S(A)", "names": {"A": 0}},
+        {"t": "op", "expr": "epg.S([[0.6, 0.3, 0.0]])"}, {"t": "sm", "expr": "epg.StateMatrix([1, 1, 0], kvalue=0.5, kgrid=0.01)"},
+        {"t": "op", "expr": "epg.T(90, 90)"}, {"t": "op", "expr": "epg.T(180, 0)"}, {"t": "probe", "expr": "epg.ADC"},
+        {"t": "sm", "expr": "epg.StateMatrix(kvalue=2.0, tvalue=0.5, kgrid=0.05)"}],
+        "calls": [{"do": "apply", "op": 1, "sm": 3, "inplace": False}, {"do": "apply", "op": 1, "sm": 8, "inplace": False},
+                  {"do": "apply", "op": 2, "sm": 9, "inplace": False}, {"do": "apply", "op": 2, "sm": 7, "inplace": True},
+                  {"do": "mkseq", "refs": [4, 1, 5, 1, 6, 2, 6]},
+                  {"do": "simulate", "seq": 12, "init": None, "opts": {"kvalue": 0.5, "kgrid": 0.01}, "probe": None},
+                  {"do": "simulate", "seq": 12, "init": None, "opts": {"kvalue": 0.5, "kgrid": 0.01}, "probe": None},
+                  {"do": "simulate", "seq": 12, "init": 3, "opts": {"asarray": False}, "probe": None}]}),
     ("Probe.acquire of several quantities is a snapshot", {"kind": "witness", "objects": [
         {"t": "sm", "expr": "epg.StateMatrix([0.6, 0.6, 0.3])"}, {"t": "probe", "expr": "epg.Probe(lambda sm: (sm.F0, sm.Z0))"},
         {"t": "probe", "expr": "epg.Probe('[F, (Z, states)]')"}, {"t": "op", "expr": "epg.T(90, 0)"}, {"t": "op", "expr": "epg.E(10.0, 100.0, 20.0)"}],
